@@ -75,6 +75,11 @@ class InstBundleElabPass(ElabPass):
                     new_inst.connect(portname, _bundle_ref(conn, signame))
 
             elif isinstance(conn, AnonymousBundle):
+                # The anonymous bundle must have exactly the members of the instance-bundle's `Bundle`
+                if set(conn._namespace) != set(signal_names_to_instances):
+                    msg = f"Invalid connection to `{instbundle.name}.{portname}`: members {list(conn._namespace)} "
+                    msg += f"do not match those of {instbundle.bundle}, {list(signal_names_to_instances)}"
+                    self.fail(msg)
                 for signame, new_inst in signal_names_to_instances.items():
                     new_inst.connect(portname, conn.get(signame))
 
